@@ -776,3 +776,364 @@ Lemma action_matrix_dims : dims2 (action_matrix m sl al) (length sl) (length al)
 Proof. apply fill2_dims. apply dims2_zeros. Qed.
 
 End Matrices.
+
+(* ------------------------------------------------------------------ *)
+(* state_list / action_list                                            *)
+(* ------------------------------------------------------------------ *)
+Lemma order_set_perm : forall cmp ord l,
+  (forall l, Permutation (ord l) l) -> Permutation (order_set cmp ord l) l.
+Proof.
+  intros cmp ord l Hord. unfold order_set. destruct (sortable cmp l); [| apply Hord].
+  apply Permutation_sym. apply NatSort.Permuted_sort.
+Qed.
+
+Lemma order_set_sorted : forall cmp ord l,
+  sortable cmp l = true -> Sorted.Sorted (fun x y => is_true (NatOrder.leb x y)) (order_set cmp ord l).
+Proof. intros cmp ord l H. unfold order_set. rewrite H. apply NatSort.Sorted_sort. Qed.
+
+(* inferred state list: no duplicates, exactly the reachable states, in sorted order
+   when the labels are sortable; explicit list: returned as given *)
+Theorem state_list_spec_thm : forall m U cmp ord pick fuel,
+  (forall s, Reach m s -> In s U) -> enough_fuel U fuel ->
+  (forall l, Permutation (ord l) l) ->
+  let sl := state_list m None cmp ord pick fuel in
+  NoDup sl /\ (forall s, In s sl <-> Reach m s) /\
+  (sortable cmp (reachable m pick None fuel) = true ->
+   Sorted.Sorted (fun x y => is_true (NatOrder.leb x y)) sl).
+Proof.
+  intros m U cmp ord pick fuel Hfin Hfuel Hord. simpl.
+  pose proof (order_set_perm cmp ord (reachable m pick None fuel) Hord) as Hp.
+  split; [| split].
+  - apply (Permutation_NoDup (Permutation_sym Hp)). apply (reachable_nodup_thm m U Hfin).
+  - intro s. rewrite <- (reachable_spec_thm m U Hfin pick fuel Hfuel s). split.
+    + apply Permutation_in. exact Hp.
+    + apply Permutation_in. apply Permutation_sym. exact Hp.
+  - apply order_set_sorted.
+Qed.
+
+Lemma state_list_explicit : forall m l cmp ord pick fuel, state_list m (Some l) cmp ord pick fuel = l.
+Proof. reflexivity. Qed.
+
+Lemma action_set_acc : forall m sl acc,
+  NoDup acc ->
+  NoDup (fold_left (fun acc s => fold_left (fun acc a => add a acc) (factions m s) acc) sl acc) /\
+  forall a, In a (fold_left (fun acc s => fold_left (fun acc a => add a acc) (factions m s) acc) sl acc) <->
+            In a acc \/ exists s, In s sl /\ In a (factions m s).
+Proof.
+  intros m sl. induction sl as [| s sl IH]; intros acc Hnd; simpl.
+  - split; [exact Hnd |]. intro a. split; [tauto | intros [H | [s [[] _]]]; exact H].
+  - assert (Hin : forall l acc0, NoDup acc0 ->
+              NoDup (fold_left (fun acc a => add a acc) l acc0) /\
+              forall a, In a (fold_left (fun acc a => add a acc) l acc0) <-> In a acc0 \/ In a l).
+    { induction l as [| x l IHl]; intros acc0 Hnd0; simpl.
+      - split; [exact Hnd0 | intro a; tauto].
+      - destruct (IHl (add x acc0) (NoDup_add x acc0 Hnd0)) as [G1 G2]. split; [exact G1 |].
+        intro a. rewrite G2. rewrite In_add. split; [intros [[H | H] | H] | intros [H | [H | H]]]; auto. }
+    destruct (Hin (factions m s) acc Hnd) as [G1 G2].
+    destruct (IH _ G1) as [K1 K2]. split; [exact K1 |].
+    intro a. rewrite K2. rewrite G2. split.
+    + intros [[H | H] | [s' [Hs' Ha]]]; [left; exact H | right; exists s; split; [left; reflexivity | exact H] |
+                                        right; exists s'; split; [right; exact Hs' | exact Ha]].
+    + intros [H | [s' [[Hs' | Hs'] Ha]]]; [left; left; exact H | subst; left; right; exact Ha | right; exists s'; split; assumption].
+Qed.
+
+(* inferred action list: no duplicates, exactly the union of actions(s) over the state list *)
+Theorem action_list_spec_thm : forall m sl cmp ord,
+  (forall l, Permutation (ord l) l) ->
+  let al := action_list m sl None cmp ord in
+  NoDup al /\ (forall a, In a al <-> exists s, In s sl /\ In a (factions m s)) /\
+  (sortable cmp (action_set m sl) = true -> Sorted.Sorted (fun x y => is_true (NatOrder.leb x y)) al).
+Proof.
+  intros m sl cmp ord Hord. simpl.
+  pose proof (order_set_perm cmp ord (action_set m sl) Hord) as Hp.
+  destruct (action_set_acc m sl [] (NoDup_nil _)) as [H1 H2]. fold (action_set m sl) in H1, H2.
+  split; [| split].
+  - apply (Permutation_NoDup (Permutation_sym Hp)). exact H1.
+  - intro a. split.
+    + intro Ha. apply (Permutation_in _ Hp) in Ha. apply H2 in Ha. destruct Ha as [[] | Ha]. exact Ha.
+    + intro Ha. apply (Permutation_in _ (Permutation_sym Hp)). apply H2. right. exact Ha.
+  - apply order_set_sorted.
+Qed.
+
+(* ------------------------------------------------------------------ *)
+(* the property's wording of reachability, and its refutation          *)
+(* ------------------------------------------------------------------ *)
+(* "successors of absorbing states not expanded", read literally *)
+Definition reachable_spec_full_stmt : Prop :=
+  forall m U pick fuel, (forall s, Reach m s -> In s U) -> enough_fuel U fuel ->
+  forall s, In s (reachable m pick None fuel) <-> ReachWords m s.
+
+(* witness: state 0 is initial and absorbing, and moves to state 1 with probability 1 *)
+Definition refute_mdp : fmdp :=
+  mkF [(O, 1)] (fun _ => [O]) (fun _ _ => [(1%nat, 1)]) (fun _ _ _ => 0) (fun s => Nat.eqb s O) (9 # 10).
+
+Lemma refute_reach_U : forall s, Reach refute_mdp s -> In s [O; 1%nat].
+Proof.
+  intros s H. induction H as [s Hs | s e Hr IH Hex He Hp].
+  - simpl in Hs. destruct Hs as [<- | []]. left. reflexivity.
+  - unfold succs in He. simpl in He. destruct He as [<- | []]. right. left. reflexivity.
+Qed.
+
+Lemma refute_words : forall s, ReachWords refute_mdp s -> s = O.
+Proof.
+  intros s H. induction H as [s Hs | s e Hr IH Hex He Hp].
+  - simpl in Hs. destruct Hs as [<- | []]. reflexivity.
+  - subst s. unfold expanded_words in Hex. simpl in Hex. discriminate.
+Qed.
+
+Theorem reachable_spec_full_refuted_thm :
+  exists m U pick fuel s,
+    (forall s, Reach m s -> In s U) /\ enough_fuel U fuel /\
+    In s (init_support m) /\ fabsorbing m s = true /\
+    In (1%nat) (reachable m pick None fuel) /\ ~ ReachWords m (1%nat).
+Proof.
+  exists refute_mdp, [O; 1%nat], pick_head, 5%nat, O.
+  split; [exact refute_reach_U |]. split; [unfold enough_fuel; simpl; lia |].
+  split; [left; reflexivity |]. split; [reflexivity |].
+  split; [vm_compute; right; left; reflexivity |].
+  intro H. apply refute_words in H. discriminate.
+Qed.
+
+Corollary reachable_spec_full_false : ~ reachable_spec_full_stmt.
+Proof.
+  intro H. destruct reachable_spec_full_refuted_thm as [m [U [pick [fuel [s [H1 [H2 [_ [_ [H3 H4]]]]]]]]]].
+  apply H4. apply (H m U pick fuel H1 H2). exact H3.
+Qed.
+
+(* ... and it does hold whenever absorbing initial states have no positive-probability
+   successor other than themselves (e.g. they self-loop) *)
+Theorem reachable_spec_full_when_thm : forall m U pick fuel,
+  (forall s, Reach m s -> In s U) -> enough_fuel U fuel ->
+  (forall s e, In s (init_support m) -> fabsorbing m s = true -> In e (succs m s) ->
+               Qnz (snd e) = true -> fst e = s) ->
+  forall s, In s (reachable m pick None fuel) <-> ReachWords m s.
+Proof.
+  intros m U pick fuel Hfin Hfuel Hself s. rewrite (reachable_spec_thm m U Hfin pick fuel Hfuel). split.
+  - intro H. induction H as [s Hs | s e Hr IH Hex He Hp].
+    + apply RB_init. exact Hs.
+    + destruct (fabsorbing m s) eqn:Eab.
+      * destruct Hex as [Hex | Hex]; [| rewrite Eab in Hex; discriminate].
+        rewrite (Hself s e Hex Eab He Hp). exact IH.
+      * apply (RB_step m (expanded_words m) s e); try assumption.
+  - intro H. induction H as [s Hs | s e Hr IH Hex He Hp].
+    + apply RB_init. exact Hs.
+    + apply (RB_step m (expanded m) s e); try assumption. right. exact Hex.
+Qed.
+
+(* ------------------------------------------------------------------ *)
+(* quick constructors                                                  *)
+(* ------------------------------------------------------------------ *)
+Theorem quick_equiv_thm : forall m, quick_wrap m = Some m.
+Proof. intros [i a n r b g]. reflexivity. Qed.
+
+(* constants / deterministic variants denote the obvious functions *)
+Theorem quick_variants_thm : forall nsd rw ac ini isabs nxt ist g m',
+  quick nsd rw ac ini isabs nxt ist g = Some m' ->
+  (forall s, factions m' s = match ac with AConst l => l | AFun f => f s end) /\
+  (forall s a ns, freward m' s a ns = match rw with RConst r => r | RFun f => f s a ns end) /\
+  (forall s a, fnext m' s a = match nxt with
+                              | Some f => [(f s a, 1)]
+                              | None => match nsd with Some d => d s a | None => [] end
+                              end) /\
+  finit m' = (match ist with
+              | Some s => [(s, 1)]
+              | None => match ini with Some (IFun f) => f tt | Some (IDist d) => d | None => [] end
+              end) /\
+  fabsorbing m' = isabs /\ fgamma m' = g.
+Proof.
+  intros nsd rw ac ini isabs nxt ist g m' H. unfold quick in H.
+  destruct nxt as [f |]; destruct ist as [s0 |]; destruct nsd as [d |]; destruct ini as [[d0 | f0] |];
+    simpl in H; try discriminate; inversion H; subst; clear H; simpl;
+    (repeat split; try reflexivity; intros; destruct ac; destruct rw; reflexivity).
+Qed.
+
+(* ------------------------------------------------------------------ *)
+(* from_matrices o to_matrices                                         *)
+(* ------------------------------------------------------------------ *)
+Lemma Qnz_compat : forall x y, x == y -> Qnz x = Qnz y.
+Proof.
+  intros x y H. unfold Qnz. f_equal.
+  destruct (Qeq_bool x 0) eqn:E1; destruct (Qeq_bool y 0) eqn:E2; try reflexivity.
+  - apply Qeq_bool_iff in E1. apply Qeq_bool_neq in E2. exfalso. apply E2. rewrite <- H. exact E1.
+  - apply Qeq_bool_iff in E2. apply Qeq_bool_neq in E1. exfalso. apply E1. rewrite H. exact E2.
+Qed.
+
+Lemma Qpos_clip : forall t, 0 <= t -> (if Qpos t then t else 0) == t.
+Proof.
+  intros t Ht. unfold Qpos. destruct (Qle_bool t 0) eqn:E; simpl; [| apply Qeq_refl].
+  apply Qle_bool_iff in E. apply Qle_antisym; assumption.
+Qed.
+
+Lemma Qnz_1 : Qnz 1 = true. Proof. reflexivity. Qed.
+Lemma Qnz_0 : Qnz 0 = false. Proof. reflexivity. Qed.
+
+(* zip(labels, row) filtered by a predicate on the number: membership and lookup by position *)
+Lemma zip_filter_keys : forall (P : Q -> bool) (l : list nat) (r : list Q) x,
+  In x (map fst (filter (fun e => P (snd e)) (combine l r))) -> In x l.
+Proof.
+  intros P l. induction l as [| y l IH]; intros [| v r] x; simpl; try tauto.
+  destruct (P v); simpl; [intros [H | H]; [left; exact H | right; apply (IH r); exact H] | intro H; right; apply (IH r); exact H].
+Qed.
+
+Lemma zip_filter_nodup : forall (P : Q -> bool) (l : list nat) (r : list Q),
+  NoDup l -> NoDup (map fst (filter (fun e => P (snd e)) (combine l r))).
+Proof.
+  intros P l. induction l as [| y l IH]; intros [| v r] Hnd; simpl; try constructor.
+  inversion Hnd as [| ? ? Hy Hnd']; subst.
+  destruct (P v); simpl; [constructor; [intro H; apply Hy; apply (zip_filter_keys P l r); exact H | apply IH; exact Hnd'] | apply IH; exact Hnd'].
+Qed.
+
+Lemma zip_filter_mem : forall (P : Q -> bool) (l : list nat) (r : list Q) j,
+  NoDup l -> length r = length l -> (j < length l)%nat ->
+  mem (nth j l O) (map fst (filter (fun e => P (snd e)) (combine l r))) = P (nth j r 0).
+Proof.
+  intros P l. induction l as [| y l IH]; intros [| v r] j Hnd Hlen Hj; simpl in *; try lia.
+  inversion Hnd as [| ? ? Hy Hnd']; subst.
+  destruct j as [| j].
+  - destruct (P v) eqn:E; simpl.
+    + unfold mem. simpl. rewrite Nat.eqb_refl. reflexivity.
+    + apply mem_false. intro H. apply Hy. apply (zip_filter_keys P l r). exact H.
+  - assert (Hne : nth j l O <> y) by (intro H; apply Hy; rewrite <- H; apply nth_In; lia).
+    rewrite <- (IH r j Hnd'); try lia.
+    destruct (P v); simpl; [| reflexivity].
+    unfold mem. simpl. apply Nat.eqb_neq in Hne. rewrite Hne. reflexivity.
+Qed.
+
+Lemma zip_filter_prob : forall (P : Q -> bool) (l : list nat) (r : list Q) k,
+  NoDup l -> length r = length l -> (k < length l)%nat ->
+  prob (filter (fun e => P (snd e)) (combine l r)) (nth k l O) = if P (nth k r 0) then nth k r 0 else 0.
+Proof.
+  intros P l. induction l as [| y l IH]; intros [| v r] k Hnd Hlen Hk; simpl in *; try lia.
+  inversion Hnd as [| ? ? Hy Hnd']; subst.
+  destruct k as [| k].
+  - destruct (P v) eqn:E; simpl.
+    + unfold prob. simpl. rewrite Nat.eqb_refl. reflexivity.
+    + unfold prob. destruct (find _ _) as [e |] eqn:Ef; [| reflexivity].
+      apply find_some in Ef. destruct Ef as [He Hk']. apply Nat.eqb_eq in Hk'.
+      exfalso. apply Hy. rewrite <- Hk'. apply (zip_filter_keys P l r). apply in_map. exact He.
+  - assert (Hne : y <> nth k l O) by (intro H; apply Hy; rewrite H; apply nth_In; lia).
+    rewrite <- (IH r k Hnd'); try lia.
+    destruct (P v); simpl; [| reflexivity].
+    unfold prob. simpl. apply Nat.eqb_neq in Hne. rewrite Hne. reflexivity.
+Qed.
+
+Lemma prob_nonneg : forall (d : dist) s, (forall e, In e d -> 0 <= snd e) -> 0 <= prob d s.
+Proof.
+  intros d s H. unfold prob. destruct (find _ _) as [e |] eqn:Ef; [| apply Qle_refl].
+  apply find_some in Ef. apply H. apply Ef.
+Qed.
+
+Section RoundTrip.
+Variable m : fmdp.
+Variables sl al : list nat.
+Hypothesis Hsl : NoDup sl.
+Hypothesis Hal : NoDup al.
+(* distributions are dicts (unique keys) with non-negative numbers *)
+Hypothesis Hkeys : forall s a, NoDup (map fst (fnext m s a)).
+Hypothesis Hnonneg : forall s a e, In e (fnext m s a) -> 0 <= snd e.
+Hypothesis Hinit_nonneg : forall e, In e (finit m) -> 0 <= snd e.
+
+Let M := to_matrices m sl al.
+Let m' := from_matrices M.
+
+Lemma rt_mem : forall i j, (i < length sl)%nat -> (j < length al)%nat ->
+  mem (nth j al O) (factions m' (nth i sl O)) = mem (nth j al O) (factions m (nth i sl O)).
+Proof.
+  intros i j Hi Hj. unfold m', from_matrices, M. simpl.
+  rewrite (index_nth sl i O Hsl Hi).
+  destruct (action_matrix_dims m sl al) as [D1 D2].
+  rewrite (zip_filter_mem Qnz al _ j Hal (D2 i Hi) Hj).
+  pose proof (action_matrix_exact m sl al Hal i j Hi Hj) as Ham. unfold get2 in Ham.
+  rewrite (Qnz_compat _ _ Ham). destruct (mem _ _); reflexivity.
+Qed.
+
+Lemma rt_prob : forall i j k, (i < length sl)%nat -> (j < length al)%nat -> (k < length sl)%nat ->
+  prob (fnext m' (nth i sl O) (nth j al O)) (nth k sl O) =
+  if Qpos (get3 (m_tf M) i j k) then get3 (m_tf M) i j k else 0.
+Proof.
+  intros i j k Hi Hj Hk. unfold m', from_matrices, M. simpl.
+  rewrite (index_nth sl i O Hsl Hi). rewrite (index_nth al j O Hal Hj).
+  destruct (transition_matrix_dims m sl al) as [D1 D2]. destruct (D2 i Hi) as [D3 D4].
+  rewrite (zip_filter_prob Qpos sl _ k Hsl (D4 j Hj) Hk). reflexivity.
+Qed.
+
+Lemma rt_keys : forall s a, NoDup (map fst (fnext m' s a)).
+Proof. intros s a. unfold m', from_matrices. simpl. apply zip_filter_nodup. exact Hsl. Qed.
+
+Lemma rt_tf_nonneg : forall i j k, (i < length sl)%nat -> (j < length al)%nat -> (k < length sl)%nat ->
+  0 <= get3 (m_tf M) i j k.
+Proof.
+  intros i j k Hi Hj Hk. unfold M. simpl.
+  rewrite (transition_matrix_exact m sl al Hsl Hal i j k Hi Hj Hk (Hkeys _ _)).
+  destruct (mem _ _); [apply prob_nonneg; apply Hnonneg | apply Qle_refl].
+Qed.
+
+(* rebuilding from the arrays gives back the same arrays, lists and discount rate *)
+Theorem round_trip_tf : forall i j k, (i < length sl)%nat -> (j < length al)%nat -> (k < length sl)%nat ->
+  get3 (m_tf (to_matrices m' sl al)) i j k == get3 (m_tf M) i j k.
+Proof.
+  intros i j k Hi Hj Hk. simpl.
+  rewrite (transition_matrix_exact m' sl al Hsl Hal i j k Hi Hj Hk (rt_keys _ _)).
+  rewrite (rt_mem i j Hi Hj). rewrite (rt_prob i j k Hi Hj Hk).
+  pose proof (rt_tf_nonneg i j k Hi Hj Hk) as Hge.
+  destruct (mem (nth j al O) (factions m (nth i sl O))) eqn:E; [apply Qpos_clip; exact Hge |].
+  unfold M. simpl. rewrite (transition_matrix_exact m sl al Hsl Hal i j k Hi Hj Hk (Hkeys _ _)).
+  rewrite E. apply Qeq_refl.
+Qed.
+
+Theorem round_trip_am : forall i j, (i < length sl)%nat -> (j < length al)%nat ->
+  get2 (m_am (to_matrices m' sl al)) i j == get2 (m_am M) i j.
+Proof.
+  intros i j Hi Hj. simpl.
+  rewrite (action_matrix_exact m' sl al Hal i j Hi Hj). rewrite (rt_mem i j Hi Hj).
+  unfold M. simpl. rewrite (action_matrix_exact m sl al Hal i j Hi Hj). apply Qeq_refl.
+Qed.
+
+Theorem round_trip_rf : forall i j k, (i < length sl)%nat -> (j < length al)%nat -> (k < length sl)%nat ->
+  get3 (m_rf (to_matrices m' sl al)) i j k == get3 (m_rf M) i j k.
+Proof.
+  intros i j k Hi Hj Hk. simpl.
+  rewrite (reward_matrix_exact m' sl al Hsl Hal i j k Hi Hj Hk (rt_keys _ _)).
+  rewrite (rt_mem i j Hi Hj). rewrite (rt_prob i j k Hi Hj Hk).
+  pose proof (rt_tf_nonneg i j k Hi Hj Hk) as Hge.
+  rewrite (Qnz_compat _ _ (Qpos_clip _ Hge)).
+  assert (Hrw : freward m' (nth i sl O) (nth j al O) (nth k sl O) = get3 (m_rf M) i j k).
+  { unfold m', from_matrices. simpl. rewrite (index_nth sl i O Hsl Hi), (index_nth al j O Hal Hj), (index_nth sl k O Hsl Hk). reflexivity. }
+  rewrite Hrw.
+  pose proof (transition_matrix_exact m sl al Hsl Hal i j k Hi Hj Hk (Hkeys _ _)) as Htf.
+  pose proof (reward_matrix_exact m sl al Hsl Hal i j k Hi Hj Hk (Hkeys _ _)) as Hrf.
+  unfold M in *. simpl in *. rewrite (Qnz_compat _ _ Htf).
+  destruct (mem (nth j al O) (factions m (nth i sl O))); simpl in *.
+  - destruct (Qnz (prob _ _)); [apply Qeq_refl | symmetry; exact Hrf].
+  - symmetry. exact Hrf.
+Qed.
+
+Theorem round_trip_s0 : forall k, (k < length sl)%nat ->
+  nth k (m_s0 (to_matrices m' sl al)) 0 == nth k (m_s0 M) 0.
+Proof.
+  intros k Hk. simpl. rewrite (initial_state_vec_exact m' sl k Hk).
+  unfold m', from_matrices, M. simpl.
+  assert (Hlen : length (initial_state_vec m sl) = length sl) by (unfold initial_state_vec; apply map_length).
+  rewrite (zip_filter_prob Qpos sl _ k Hsl Hlen Hk). apply Qpos_clip.
+  rewrite (initial_state_vec_exact m sl k Hk). apply prob_nonneg. exact Hinit_nonneg.
+Qed.
+
+Theorem round_trip_rest :
+  m_sl (to_matrices m' sl al) = m_sl M /\ m_al (to_matrices m' sl al) = m_al M /\
+  m_gamma (to_matrices m' sl al) = m_gamma M /\
+  dims3 (m_tf (to_matrices m' sl al)) (length sl) (length al) (length sl) /\
+  dims3 (m_tf M) (length sl) (length al) (length sl) /\
+  dims3 (m_rf (to_matrices m' sl al)) (length sl) (length al) (length sl) /\
+  dims3 (m_rf M) (length sl) (length al) (length sl) /\
+  dims2 (m_am (to_matrices m' sl al)) (length sl) (length al) /\
+  dims2 (m_am M) (length sl) (length al) /\
+  length (m_s0 (to_matrices m' sl al)) = length (m_s0 M).
+Proof.
+  repeat split; try reflexivity; simpl;
+    try apply transition_matrix_dims; try apply reward_matrix_dims; try apply action_matrix_dims;
+    try (intros; apply transition_matrix_dims; assumption);
+    try (intros; apply reward_matrix_dims; assumption).
+  unfold initial_state_vec. rewrite !map_length. reflexivity.
+Qed.
+
+End RoundTrip.
